@@ -41,7 +41,7 @@ package proxy
 
 // A 304 renews the stored entry: its lifetime is set to now + the configured default,
 // nothing else in the record is touched, and the stored body is handed out again.
-//@ props C06 C09 C16
+//@ props C06 C09 C16 C15
 //@ func fetcher.handleUpstream304
 //@   nopanic
 //@   assigns cache. map_map_cache.CacheKey atomic.Int64 ghost:mapsum ghost:fsinode ghost:jsize ghost:jexp ghost:handleinode ghost:callcount
@@ -52,7 +52,7 @@ package proxy
 //@   ensures [C09] err != nil ==> cached == nil && iserr(err, ErrUpdateCacheMetadata) && !iserr(err, ErrSendRequestFailed) && !iserr(err, ErrCacheResponseFailed)
 //@   ensures specFetchErr(err)
 
-//@ props C06 C16
+//@ props C06 C16 C15
 //@ func fetcher.handleUpstream304$1
 //@   nopanic
 //@   ghost holds shard
@@ -62,7 +62,7 @@ package proxy
 
 // A cacheable 200 is stored under the request's key with the validators and headers of
 // this response; the entry handed back is the stored one.  Anything else is not stored.
-//@ props C04 C06 C09 C16
+//@ props C04 C06 C09 C16 C15
 //@ func fetcher.handleUpstream200
 //@   nopanic
 //@   assigns cache. map_map_cache.CacheKey atomic.Int64 ghost:mapsum ghost:fsinode ghost:jsize ghost:jexp ghost:handleinode ghost:isize ghost:icontent
@@ -173,7 +173,7 @@ package proxy
 // The request that goes to the origin for a stale entry carries the validators stored
 // with that entry - exactly them, nothing the client sent.  A fresh entry is served
 // without any origin request.
-//@ props C05 C06 C09 C16
+//@ props C05 C06 C09 C16 C15
 //@ func fetcher.getFromCacheOrFetch
 //@   nopanic
 //@   assigns HeaderDirectives http.Request@req new:http.Request url.URL new:http.Response map_ ghost:upstream cache. map_map_cache.CacheKey atomic.Int64 ghost:mapsum ghost:fsinode ghost:jsize ghost:jexp ghost:handleinode ghost:isize ghost:icontent ghost:callcount
@@ -199,7 +199,7 @@ package proxy
 // falls back to a fetch of its own when that fails or when the shared answer was
 // not cacheable.  The call fails only when an origin request failed - its own or the
 // shared one it waited for.
-//@ props C05 C09 C16
+//@ props C05 C09 C16 C15
 //@ func fetcher.dedupFetch
 //@   nopanic
 //@   assigns HeaderDirectives http.Request@req new:http.Request url.URL new:http.Response map_ ghost:upstream ghost:sfleader ghost:sfshared ghost:sferrs cache. map_map_cache.CacheKey atomic.Int64 ghost:mapsum ghost:fsinode ghost:jsize ghost:jexp ghost:handleinode ghost:isize ghost:icontent ghost:callcount
@@ -217,7 +217,7 @@ package proxy
 //@   ensures sferrs >= old(sferrs)
 //@   ensures specReqOK(req)
 
-//@ props C07 C16
+//@ props C07 C16 C15
 //@ func Proxy.handleRangeRequest
 //@   nopanic
 //@   assigns HeaderDirectives http.Request@req new:http.Request url.URL new:http.Response map_ ghost:upstream ghost:sfleader ghost:sfshared ghost:sferrs cache. map_map_cache.CacheKey atomic.Int64 ghost:mapsum ghost:fsinode ghost:jsize ghost:jexp ghost:handleinode ghost:isize ghost:icontent responder. ghost:httpstatus ghost:httpwrites ghost:respbody ghost:httperrs ghost:callcount
@@ -250,7 +250,7 @@ package proxy
 // ---------------------------------------------------------------- cache status labels, Age (C03)
 
 // The age of a stored response is never below the time it has been resident in the cache.
-//@ props C03 C16
+//@ props C03 C16 C15
 //@ func getCurrentAge
 //@   nopanic
 //@   pure
@@ -258,7 +258,7 @@ package proxy
 //@   ensures [C03] (decval(sid(originalHead["Age"][0])) < 4000000000 || !in(originalHead, "Age")) && now - storedAt < 9000000000000000000 && storedAt - now < 9000000000000000000 ==> result >= (now - storedAt) / 1000000000
 
 // The Cache-Status text itself is not specified yet; the function is total and has no side effects.
-//@ props C03 C16
+//@ props C03 C16 C15
 //@ func makeCacheStatusHeader
 //@   nopanic
 //@   pure
@@ -273,7 +273,7 @@ package proxy
 
 // X-Cache says HIT exactly for a response served from the store without
 // contacting the origin; Age is computed from the time the entry was written.
-//@ props C03 C16
+//@ props C03 C16 C15
 //@ func addCacheHeaders
 //@   nopanic
 //@   requires req != nil
@@ -312,7 +312,7 @@ package proxy
 // answers with an error of its own making, only when an origin request failed (its own
 // or the shared one it waited for), when the client's Range cannot be satisfied, or when
 // writing to the client failed.
-//@ props C09 C16
+//@ props C09 C16 C15
 //@ func Proxy.processRequest
 //@   nopanic
 //@   assigns HeaderDirectives http.Request@req new:http.Request url.URL new:http.Response map_ ghost:upstream ghost:sfleader ghost:sfshared ghost:sferrs cache. map_map_cache.CacheKey atomic.Int64 ghost:mapsum ghost:fsinode ghost:jsize ghost:jexp ghost:handleinode ghost:isize ghost:icontent responder. ghost:httpstatus ghost:httpwrites ghost:respbody ghost:httperrs ghost:callcount metrics.
